@@ -373,6 +373,10 @@ def run_query(q, tree, workdir, log, do_replay_witness=True):
             if to:
                 R["status"] = "inconclusive"; R["detail"] = "cbmc timed out after %ds" % q.timeout
                 return R
+            if parsed["verdict"] == "ERROR":
+                tail = "".join(l for l in open(out, errors="replace").readlines()[-400:] if "memory" in l or "ERROR" in l and not l.startswith("["))
+                R["status"] = "inconclusive"; R["detail"] = "cbmc: VERIFICATION ERROR (solver failure / out of memory): " + tail[:300]
+                return R
             if parsed["verdict"] is None:
                 tail = "".join(open(out, errors="replace").readlines()[-15:])
                 R["status"] = "inconclusive" if ("bad_alloc" in tail or rc in (-9, 137, -6, 134)) else "error"
